@@ -453,8 +453,10 @@ class ArgumentParser:
             if p not in args.system_include_paths
         ] + args.system_include_paths
 
-        # Construct final list of active modes.
-        args.modes = set(args.modes)
+        # Construct final list of active modes, in command-line order:
+        # when two modes define the same macro, which one wins must not
+        # depend on set iteration order (PYTHONHASHSEED).
+        args.modes = list(dict.fromkeys(args.modes))
 
         # Construct final list of active passes.
         args.passes = set(args.passes)
